@@ -311,6 +311,16 @@ fn record(case: &RestartCase, seed: u64) -> CaseRecord {
                 0 => "restart.returned_equal",
                 _ => "restart.returned_WORSE",
             }, 1);
+            // A goal with a multi-objective layer compares by Pareto dominance and calls incomparable individuals equal: that
+            // relation is not transitive (C09 claims a total preorder only for goals built from single-objective layers), so
+            // "not worse than the seed" is not something a population can guarantee under it - a chain seed ~ x1 (incomparable,
+            // a lower layer prefers x1) ... xn can end at an individual the seed dominates (default seed, case 23358: greedy
+            // population, objectives unassigned > weighted-sum(balance-distance, cost) > hierarchical-areas). Not judged.
+            let total_preorder = !case.first.problem.get("objectives").map(|o| o.to_string()).unwrap_or_default().contains("multi-objective");
+            if !total_preorder {
+                rec.count("restart.goal_with_multi_objective_layer_not_judged", 1);
+            }
+            let (order, raw_order) = if total_preorder { (order, raw_order) } else { (0, 0) };
             if raw_order > 0 {
                 // the population itself ranks an individual first which is worse than the one it was given
                 rec.count("restart.best_of_population_WORSE", 1);
